@@ -73,7 +73,7 @@ def IShape (lo hi r0 : Nat) (pre : List Node) (oS : Nat) (opener : Marker) (ms :
     LastFlag r0 ms ∧
     ((0 < opener.remaining ∧ ∃ otok : Node, otok.range = some (oS, oE) ∧ otok.children = [] ∧
         ms.children = pre ++ [otok] ++ tail) ∨
-     (opener.remaining = 0 ∧ ms.children = pre ++ tail))
+     (opener.remaining = 0 ∧ tail ≠ [] ∧ ms.children = pre ++ tail))
 
 theorem pickLen_le {fns : Nat → Option Wrap} {n ml : Nat} {w : Wrap} (h : pickLen fns n = some (ml, w)) :
     1 ≤ ml ∧ ml ≤ n := by
@@ -111,7 +111,7 @@ theorem matchInner_ranges {lo hi r0 : Nat} {fns : Nat → Option Wrap} {mk : Cha
       · next ml w hpick =>
         obtain ⟨hml1, hml2⟩ := pickLen_le hpick
         obtain ⟨oE, mid, tail, htail, ⟨s, e, hcr, hms, hse, hehi⟩, hoE, hflag, hshape⟩ := hs
-        rcases hshape with ⟨_, otok, hor, hoc, hch⟩ | ⟨h0, _⟩
+        rcases hshape with ⟨_, otok, hor, hoc, hch⟩ | ⟨h0, _, _⟩
         · split at h
           · simp at h
           · split at h
@@ -158,7 +158,7 @@ theorem matchInner_ranges {lo hi r0 : Nat} {fns : Nat → Option Wrap} {mk : Cha
                       obtain ⟨_, rfl⟩ := snoc_inj hl; rfl
                   · by_cases hz : opener.remaining - ml = 0
                     · right
-                      refine ⟨hz, ?_⟩
+                      refine ⟨hz, by simp, ?_⟩
                       simp only [hz, if_true]
                     · left
                       refine ⟨by simp only; omega, Node.mk otok.val (some (oS, oE - ml)) otok.children,
@@ -260,7 +260,7 @@ theorem matchOuter_ranges {lo hi r0 : Nat} {fns : Nat → Option Wrap} {mk : Cha
             · simp at h
             · next cs hrep =>
               apply ih _ _ h
-              rcases hsh with ⟨_, otok', hor', hoc', hch'⟩ | ⟨h0, _⟩
+              rcases hsh with ⟨_, otok', hor', hoc', hch'⟩ | ⟨h0, _, _⟩
               · -- the opener token gets its new value
                 unfold replaceAt at hrep
                 rw [hch', ← hlen, getElem?_mid] at hrep
@@ -286,7 +286,7 @@ theorem matchOuter_ranges {lo hi r0 : Nat} {fns : Nat → Option Wrap} {mk : Cha
               · omega
           · next hpos =>
             apply ih _ _ h
-            rcases hsh with ⟨hp, _⟩ | ⟨h0, hch'⟩
+            rcases hsh with ⟨hp, _⟩ | ⟨h0, _, hch'⟩
             · omega
             · refine ⟨mid', ?_, hcl', hflag'⟩
               rw [hch']
